@@ -59,7 +59,25 @@ fn load(db: &mut SparqlDatabase, fmt: Fmt, text: &str) {
         Fmt::NQuads => db.parse_nquads_and_add(text),
         Fmt::Turtle => db.parse_turtle(text),
         Fmt::N3 => db.parse_n3(text),
-        Fmt::RdfXml => db.parse_rdf(text),
+        Fmt::RdfXml => {
+            // every other document goes through the file-reading twin of the XML loader
+            // (which one is a function of the text, so a case loads the same way on replay)
+            if hash_str(text) % 2 == 0 {
+                db.parse_rdf(text)
+            } else {
+                let path = std::env::temp_dir().join(format!("kv-c13-{}-{:x}.rdf", std::process::id(), hash_str(text)));
+                if std::fs::write(&path, text).is_ok() {
+                    let p = path.to_string_lossy().to_string();
+                    let r = std::panic::catch_unwind(std::panic::AssertUnwindSafe(|| db.parse_rdf_from_file(&p)));
+                    let _ = std::fs::remove_file(&path);
+                    if let Err(e) = r {
+                        std::panic::resume_unwind(e);
+                    }
+                } else {
+                    db.parse_rdf(text)
+                }
+            }
+        }
     }
 }
 
